@@ -342,8 +342,20 @@ func c15tRun(in c15tInput) (msg, key string, infra bool) {
 	if in.Kind == "notimeout" {
 		timeout = 0
 	}
+	sctx := context.Background()
+	if in.Kind == "ctxdeadline" {
+		// the serving context carries a deadline of its own, far earlier than the idle period
+		timeout = 20 * time.Second
+		var cancel func()
+		sctx, cancel = context.WithTimeout(context.Background(), 100*time.Millisecond)
+		defer cancel()
+	}
+	if in.Kind == "crowd" {
+		timeout = 300 * time.Millisecond
+	}
 	done := make(chan error, 1)
-	go func() { done <- svc.Listen(context.Background(), addr, timeout) }()
+	started := time.Now()
+	go func() { done <- svc.Listen(sctx, addr, timeout) }()
 	waitListener := func() bool {
 		for t0 := time.Now(); time.Since(t0) < watchdog; time.Sleep(50 * time.Microsecond) {
 			if l, _ := svc.GetListener(); l != nil {
@@ -371,6 +383,50 @@ func c15tRun(in c15tInput) (msg, key string, infra bool) {
 		done <- varlink.ServiceTimeoutError{}
 	}
 	switch in.Kind {
+	case "ctxdeadline":
+		// no client ever connects. Whatever the context's deadline does to the serving call, it is not an idle period: the
+		// service must not report ServiceTimeoutError before the timeout period has elapsed once since it started.
+		select {
+		case e := <-done:
+			if _, ok := e.(varlink.ServiceTimeoutError); ok && time.Since(started) < timeout {
+				return fmt.Sprintf("a service with a %v idle timeout reported ServiceTimeoutError %v after it was started (its context had a 100 ms deadline): no idle period had elapsed", timeout, time.Since(started)), "symptom=timeout-before-idle-period " + k, false
+			}
+			return "", "", false
+		case <-time.After(1500 * time.Millisecond):
+		}
+		svc.Shutdown()
+		if !await(func() { <-done }) {
+			return "Shutdown did not end a service whose context had expired", "symptom=serving-call-never-returns " + k, false
+		}
+		return "", "", false
+	case "crowd":
+		// 140 connections open at the same time, each proven accepted by a round trip, then all closed: the service is
+		// idle again and the next expiry must stop it (falls through to the idle clauses below)
+		var cs []*varlink.Connection
+		for i := 0; i < 140; i++ {
+			c, err := varlink.NewConnection(context.Background(), addr)
+			if err != nil {
+				if i == 0 {
+					return "could not establish the first connection before the first expiry: " + err.Error(), "infra", true
+				}
+				continue
+			}
+			cs = append(cs, c)
+			ctx, cancel := context.WithTimeout(context.Background(), watchdog/2)
+			c.GetInfo(ctx, nil, nil, nil, nil, nil)
+			cancel()
+		}
+		select {
+		case e := <-done:
+			for _, c := range cs {
+				c.Close()
+			}
+			return fmt.Sprintf("the service stopped (%v) while %d connections were open", e, len(cs)), "symptom=timeout-stopped-a-non-idle-service " + k, false
+		default:
+		}
+		for _, c := range cs {
+			c.Close()
+		}
 	case "notimeout":
 		// never stops by itself: after a round trip and an idle pause it is still serving; Shutdown ends it
 		c, err := varlink.NewConnection(context.Background(), addr)
@@ -479,7 +535,7 @@ func c15tRun(in c15tInput) (msg, key string, infra bool) {
 func runC15T(tier string, r *Result) {
 	var inputs []c15tInput
 	for _, tr := range []string{"unix", "abstract", "tcp"} {
-		for _, kind := range []string{"idle", "connected", "notimeout"} {
+		for _, kind := range []string{"idle", "connected", "notimeout", "ctxdeadline", "crowd"} {
 			inputs = append(inputs, c15tInput{tr, kind})
 		}
 	}
